@@ -2033,7 +2033,12 @@ func JsonObject(ctx context.Context, scope *ReferenceScope, fn parser.Function) 
 
 	record := make([]value.Primary, view.FieldLen())
 	for i := range view.RecordSet[0] {
-		record[i] = view.RecordSet[0][i][0]
+		if len(view.RecordSet[0][i]) < 1 {
+			// A column of a group that has no record has no value.
+			record[i] = value.NewNull()
+		} else {
+			record[i] = view.RecordSet[0][i][0]
+		}
 	}
 	structure, _ := json.ConvertRecordValueToJsonStructure(pathes, record)
 
